@@ -4169,8 +4169,9 @@ class Wallet(object):
             raise WalletError("Sum of inputs values is not equal to sum of outputs values plus fees")
 
         transaction.txid = transaction.signature_hash()[::-1].hex()
-        if not transaction.fee_per_kb:
-            transaction.fee_per_kb = int((transaction.fee * 1000.0) / transaction.vsize)
+        # The rate the limits apply to is the rate this transaction pays: the fee may have absorbed a shortfall or a
+        # dust-sized change since the rate was estimated
+        transaction.fee_per_kb = int((transaction.fee * 1000.0) / transaction.vsize)
         if transaction.fee_per_kb < transaction.network.fee_min:
             raise WalletError("Fee per kB of %d is lower then minimal network fee of %d" %
                               (transaction.fee_per_kb, transaction.network.fee_min))
